@@ -40,9 +40,18 @@
 (*            classes with keyword-only / init=False fields)               *)
 (*   "ksmall" pairs of such objects differing in such a field only, full   *)
 (*            alphabet (model check and negative control, no emission)     *)
+(*   "forms"  round 5: FormPairs; the first object is built with its       *)
+(*            mappings handed over in a FORM chosen by TLC (every form but *)
+(*            the canonical one), the second from the canonical form; x    *)
+(*            every history of length FormDepth over the form alphabet     *)
+(*            (the caller mutates what it passed, hash, == both ways, dict *)
+(*            put of the one / look-up with the other); "fsmall": two such *)
+(*            pairs, for the model check and the negative controls.  The   *)
+(*            full alphabet (deep, small, sim) has Mutate(1) when object 1 *)
+(*            was built from a live container                              *)
 (***************************************************************************)
 EXTENDS C01_Objects, C01_Catalogue, Json
-CONSTANTS Sweeps, PairDepth, NearDepth, DeepDepth, HierDepth, XDepth, SelfDepth, Wide, EmitCases
+CONSTANTS Sweeps, PairDepth, NearDepth, DeepDepth, HierDepth, XDepth, SelfDepth, FormDepth, Wide, EmitCases
 VARIABLES todo, hist, sweep, arr
 
 vars == << objs, dict, last, cmemo, todo, hist, sweep, arr >>
@@ -108,6 +117,11 @@ Init ==
                   [] sweep = "self"  -> { << sp >> : sp \in (IF Wide THEN AllSpecs
                                                                ELSE NaNSpecsQuick \cup KwSpecsQuick) }
                   [] sweep = "ksmall" -> KwSmallPairs
+                  [] sweep = "forms" -> { << WithForm(p[1], F), p[2] >> :
+                                            p \in (IF Wide THEN FormPairs ELSE FormPairsQuick),
+                                            F \in MapForms \ {"imm"} }
+                  [] sweep = "fsmall" -> { << WithForm(p[1], F), p[2] >> :
+                                            p \in FormSmallPairs, F \in MapForms \ {"imm"} }
                   [] sweep = "selfn" -> { << sp >> : sp \in NaNSpecs }
                   [] sweep = "ssmall" -> SelfSmall
     /\ arr \in (IF sweep \in XSweeps THEN XCombos
@@ -117,6 +131,7 @@ Init ==
 (* Alphabets                                                               *)
 (***************************************************************************)
 N == Len(objs)
+NNew == Len(SelectSeq(hist, LAMBDA e : e.op = "New"))
 FieldNames(i) == FieldsOf(objs[i].tree.cls)
 FNSet(i) == { FieldNames(i)[k] : k \in 1..Len(FieldNames(i)) }
 \* fields in which objects i and j (same class) differ structurally
@@ -149,9 +164,18 @@ SelfAlphabet ==
                    \cup { EvTouch(1, md) : md \in {"stock", "rebuild"} }
         ELSE {})
 
+\* object i was built (New events come first in a history) from a container the caller
+\* can still change
+LiveBuilt(i) == i <= NNew /\ i <= Len(hist) /\ FormsIn(hist[i].spec) \cap LiveForms # {}
+
+\* round 5: object 1 built from some form of container, object 2 from the canonical one
+FormAlphabet ==
+    { EvMutate(1), EvHash(1), EvHash(2), EvEq(1, 2), EvEq(2, 1), EvPut(1, Len(hist)), EvGet(2) }
+
 FullAlphabet ==
     LET I == 1..N IN
        { EvHash(i) : i \in I }
+  \cup (IF LiveBuilt(1) THEN { EvMutate(1) } ELSE {})
   \cup { EvEq(i, j) : i \in I, j \in I }
   \cup { EvNe(i, j) : i \in {1}, j \in I }
   \cup { EvSetAttr(1, 0, fn) : fn \in FNSet(1) }
@@ -176,7 +200,7 @@ Depth == CASE sweep = "pairs" -> PairDepth
            [] sweep = "xdeep" -> PairDepth
            [] sweep \in {"self", "ssmall"} -> SelfDepth
            [] sweep = "selfn" -> SelfDepth + 1
-NNew == Len(SelectSeq(hist, LAMBDA e : e.op = "New"))
+           [] sweep \in {"forms", "fsmall"} -> FormDepth
 NOps == Len(hist) - NNew
 
 Next ==
@@ -193,6 +217,7 @@ Next ==
          /\ \E ev \in (IF sweep \in {"pairs", "near", "xtwin", "xnear", "xdeep"} THEN PairAlphabet
                         ELSE IF sweep \in {"hier", "hsmall"} THEN UseAlphabet
                         ELSE IF sweep \in {"self", "selfn", "ssmall"} THEN SelfAlphabet
+                        ELSE IF sweep \in {"forms", "fsmall"} THEN FormAlphabet
                         ELSE FullAlphabet) :
                \* (a put the dict model cannot follow, see C01_Objects!PutAmbiguous)
                /\ ~(ev.op = "DictPut" /\ PutAmbiguous(Cur, ev.i))
